@@ -82,7 +82,7 @@ CHECKS = {
         ref='3.4, 4 (C08)'),
     'C09': dict(
         technique='TLA+ spec StoneLoadMC (module load machine with partial modules; PySurface derived from the API model) explored by TLC; every model generated, imported in fresh interpreters and introspected',
-        text='TLC enumerates 127 API models and every namespace as first import, checks LoadIffAcyclic / NoLoadError (module-level '
+        text='TLC enumerates 129 API models and every namespace as first import, checks LoadIffAcyclic / NoLoadError (module-level '
              'execution with partially initialised modules succeeds iff no import cycle is reachable) and CtorCoversAllFields. Each model is '
              'generated with python_types; every first-import choice runs in a fresh interpreter; the imported modules are compared with '
              'PySurface: classes and Python bases, constructor parameter order, read/write/delete of every field incl. inherited ones, '
@@ -125,7 +125,7 @@ CHECKS = {
         ref='3.5, 4 (C13)'),
     'C14': dict(
         technique='TLA+ spec StoneLoadMC (Signature / CallShapes / Request) explored by TLC; every call shape issued on a recording subclass of the generated client',
-        text='For every route of 127 models TLC enumerates every call shape (k leading positionals, remaining required by keyword, optional '
+        text='For every route of 129 models TLC enumerates every call shape (k leading positionals, remaining required by keyword, optional '
              'ones none/singly/all) and predicts the request; SignatureIsCtorOrder and CallsWellFormed are model-checked. Each call is made '
              'on the python_client output imported next to the python_types output: method name and parameters with spec defaults, exactly '
              'one request with the route object (identity), namespace, argument == struct built from distinct per-field values, upload '
@@ -133,21 +133,21 @@ CHECKS = {
         ref='3.7, 4 (C14)'),
     'C15': dict(
         technique='TLA+ operators PySurface and Pep (Stone type -> PEP 484) evaluated by TLC on every model; compared with the ast of the generated .pyi and the introspected runtime module',
-        text='For each of 127 models the stub of every namespace must parse (ast) and declare exactly the classes, bases, constructor '
+        text='For each of 129 models the stub of every namespace must parse (ast) and declare exactly the classes, bases, constructor '
              'parameters, field attributes, is_/get_/constructor helpers, void-tag attributes, validators, alias bindings and route objects '
              'of PySurface (which the runtime modules are checked against as well); every annotation must equal the Pep mapping computed '
              'by the specification and use only bound names.',
         ref='3.7, 4 (C15)'),
     'C16': dict(
-        technique='TLA+ module StoneLoadMC (127 API models with declared surfaces computed by TLC) bound to js_types, js_client, tsd_types and tsd_client output: scanners for JSDoc typedefs and .d.ts declarations compare declared names, members, optionality and referenced type names with the surfaces; the generated JS is evaluated with node when present',
-        text='For each of 126 loadable models (chains, foreign parents, argument kinds, deprecation, styles, nested alias/nullable/list '
+        technique='TLA+ module StoneLoadMC (129 API models with declared surfaces computed by TLC) bound to js_types, js_client, tsd_types and tsd_client output: scanners for JSDoc typedefs and .d.ts declarations compare declared names, members, optionality and referenced type names with the surfaces; the generated JS is evaluated with node when present',
+        text='For each of 128 loadable models (chains, foreign parents, argument kinds, deprecation, styles, nested alias/nullable/list '
              'types, inherited unions, subtype trees) the four JavaScript/TypeScript rows must complete, every struct/union/alias and route is '
              'declared exactly once under the naming scheme, members and optional markers equal the model, every referenced type name resolves '
              'to a declaration or builtin, and brackets/strings/comments are lexically balanced. No TypeScript compiler is available offline.',
         ref='3.7, 4 (C16)'),
     'C17': dict(
-        technique='TLA+ module StoneLoadMC (127 API models, surfaces computed by TLC) bound to swift_types, swift_types --objc, swift_client, swift_client --objc, obj_c_types and obj_c_client output through a Swift scope scanner and an Objective-C interface scanner (harness/swiftcheck.py)',
-        text='For each of 126 loadable models all six Swift/Objective-C rows must complete; each .swift/.h/.m file is lexed (terminated '
+        technique='TLA+ module StoneLoadMC (129 API models, surfaces computed by TLC) bound to swift_types, swift_types --objc, swift_client, swift_client --objc, obj_c_types and obj_c_client output through a Swift scope scanner and an Objective-C interface scanner (harness/swiftcheck.py)',
+        text='For each of 128 loadable models all six Swift/Objective-C rows must complete; each .swift/.h/.m file is lexed (terminated '
              'strings/comments/character literals, balanced brackets); no scope declares the same type, case, property or function signature '
              'twice and no @interface/@implementation repeats a property or selector; every namespace, struct, union, field, tag, serializer, '
              'route object and route function of the model is declared under the naming scheme; every qualified Swift user-type reference '
